@@ -7,6 +7,9 @@ vc:      try_as_register, try_accumulator_from_symbol, the five operand stubs pe
 """
 import z3
 from contracts.common import *  # noqa
+from contracts import structure
+from contracts.structure import *  # noqa
+from contracts.deferred_c import *  # noqa
 from contracts import common, insn
 from contracts.insn import *  # noqa  (unit functions are looked up in this module by the driver)
 from pyvc import driver
@@ -62,6 +65,9 @@ def units(tier):
             if m == "halt" and d == -1:
                 continue
             us.append(("insn-arity[%s,%+d]" % (m, d), "unit_compile_insn", dict(mnemonic=m, lazy=False, arity_delta=d)))
+    # whole programs: the statement holds wherever a statement stands (repeat body, included / linked file, any block) - contracts/structure.py
+    us += structure.units()
+    us += structure.kernel_units()
     return us
 
 
@@ -184,6 +190,9 @@ def replay_rel(mnemonic, tree):
 
 
 def replay(o, tree):
+    r_ = structure.replay(o, tree)
+    if r_ is not None:
+        return r_
     cfg = o.get("cfg") or {}
     w = o.get("witness") or {}
     from spec import pdp11_isa as isa
